@@ -80,6 +80,7 @@ func ConnectSession(ctx context.Context, cluster *Cluster, config SessionConfig)
 	if err != nil {
 		return nil, err
 	}
+	vhook("session.listening", session)
 
 	select {
 	case <-ctx.Done():
